@@ -31,4 +31,15 @@ a='<!-- SEEDED-MATRIX:BEGIN -->'; b='<!-- SEEDED-MATRIX:END -->'
 assert a in s and b in s
 s=s[:s.index(a)+len(a)]+'\n'+sec+'\n'+s[s.index(b):]
 open(p,'w').write(s)
-print(len(rows),'seeds',len(muts),'mutants',len(ben),'benign')
+# stand-ins
+pc=json.load(open('/verif/props.json'))
+srows=["| property | stand-in | tier | what is run (bound) |","|---|---|---|---|"]
+for k in sorted(pc):
+    for si in pc[k].get('bounded_standins') or []:
+        srows.append(f"| {k} | `{si['name']}` (`replay/{si['file']}`) | {'quick + thorough' if si.get('quick') else 'thorough'} | {si['bound']} |")
+s=open(p).read()
+a='<!-- STANDINS:BEGIN -->'; b='<!-- STANDINS:END -->'
+if a in s and b in s:
+    s=s[:s.index(a)+len(a)]+'\n'+'\n'.join(srows)+'\n'+s[s.index(b):]
+    open(p,'w').write(s)
+print(len(rows),'seeds',len(muts),'mutants',len(ben),'benign',len(srows)-2,'stand-ins')
